@@ -227,6 +227,22 @@ def run_config(cfg, outdir):
         if offering:
             with np.errstate(all="ignore"):
                 res["prime_prior"] = fl(prime_prior(xp))
+                # per offering block: its own prime prior on the outputs and its own forward log-Jacobian
+                res["pp_blocks"] = []
+                for rr in offering:
+                    ent = {"class": type(rr).__name__, "parameters": list(rr.parameters),
+                           "prime_parameters": list(rr.prime_parameters), "pp": fl(rr.x_prime_log_prior(xp.copy())), "lj": None}
+                    try:
+                        kw2 = {}
+                        if "test" in cfg:
+                            kw2["test"] = cfg["test"]
+                        xq = live(cfg["names"], cfg["points"])
+                        xpq = np.zeros(xq.size, dtype=xp.dtype)
+                        _, _, ljq = rr.reparameterise(xq, xpq, np.zeros(xq.size), **kw2)
+                        ent["lj"] = fl(np.asarray(ljq)[: xq.size])
+                    except Exception as e:  # not essential
+                        ent["lj_error"] = str(e)[:100]
+                    res["pp_blocks"].append(ent)
                 if cfg.get("outside"):
                     _, xpo, _, _, _ = one_pass(p, cfg, cfg["outside"])
                     res["outside_prior"] = fl(prime_prior(xpo))
